@@ -108,7 +108,7 @@ func c04Step(t *rapid.T) kit.Argv {
 		// integer-valued hot field, so HINCRBY meets every sign combination
 		return kit.A("HSET", pick(t, "hk", "h1", "h2"), c04Hot(t), pick(t, "iv", c04Incs...))
 	case 16:
-		return kit.A("DEL", k)
+		return goneStep(t, k)
 	default:
 		return kit.A(cn("HSET"), k, c04Field(t)) // wrong arity
 	}
@@ -145,6 +145,10 @@ func c04Gen(t *rapid.T) SeqCase {
 	for i := 0; i < n; i++ {
 		if rapid.IntRange(0, 39).Draw(t, "sparse") == 0 {
 			steps = append(steps, c04Sparse(t)...)
+			continue
+		}
+		if rapid.IntRange(0, 14).Draw(t, "gone") == 0 {
+			steps = append(steps, afterGone(t, []string{"h1", "h2"}, c04Step)...)
 			continue
 		}
 		steps = append(steps, c04Step(t))
